@@ -577,12 +577,18 @@ func ruleC01List(p *Prog, r *Result) {
 				}
 			}
 			if rec == nil {
+				if isFailure(pa) && strings.HasPrefix(errClass(lastResult(pa)), "from:bkl.deepClone") {
+					return true, "" // copying the entry body failed before the merge
+				}
 				return false, "a matching entry is not merged"
 			}
 			if rec.Args[0].Op != "elem" || !pr.originsOf(rec.Args[0])["param:dst"] {
 				return false, "the destination of the merge is not the matching parent entry: " + rec.Args[0].String()
 			}
 			body := rec.Args[1]
+			if mResOf(0, mCall("bkl.deepClone"))(body) {
+				body = body.Args[0].Args[0] // a private copy of the body (C02.indep) — look at what is copied
+			}
 			bo := pr.originsOf(body)
 			if ok, bad := originParamsOnly(bo, "src"); !ok || !bo["param:src"] {
 				return false, "the source of the merge does not come from the child entry (" + bad + ")"
